@@ -351,10 +351,18 @@ static std::vector<std::locale> &locales()
 	return l;
 }
 static FILE *g_dump = 0;
+static bool g_odd = false;      // separate input class: values that JSON text cannot carry (non-finite numbers, strings that are not UTF-8)
+static std::string odd_sfx() { return g_odd ? ":value-holds-non-finite-number-or-non-utf8-string" : ""; }
 static void check_writer(rng &r, long long idx)
 {
 	json::value v;
 	build_value(r, v, 0);
+	if (g_odd) {
+		json::value inner = v, odd;
+		switch (r.below(5)) { case 0: odd = std::numeric_limits<double>::quiet_NaN(); break; case 1: odd = std::numeric_limits<double>::infinity(); break; case 2: odd = -std::numeric_limits<double>::infinity(); break; case 3: odd = std::string("\xff"); break; default: odd = std::string("ok\xc3"); }
+		v = json::array(); v.array().push_back(inner); v.array().push_back(odd);
+		O().count("writer_trees_with_unrepresentable_value");
+	}
 	O().count("writer_trees");
 	std::string rp;
 	for (size_t li = 0; li < locales().size(); li++) for (int fmt = 0; fmt < 2; fmt++) {
@@ -367,10 +375,10 @@ static void check_writer(rng &r, long long idx)
 		O().count("writer_outputs");
 		if (ss.getloc() != locales()[li]) O().viol("json:writer-left-stream-locale-changed", rp, rp);
 		rfc chk(out);
-		if (!chk.doc()) { O().viol("json:writer-output-not-rfc8259", "locale#" + std::to_string(li) + " out=" + out.substr(0, 300), rp); continue; }
+		if (!chk.doc()) { O().viol("json:writer-output-not-rfc8259" + odd_sfx(), "locale#" + std::to_string(li) + " out=" + out.substr(0, 300), rp); continue; }
 		json::value back; char const *b = out.data();
-		if (!back.load(b, out.data() + out.size(), true)) { O().viol(own_output_key(v), out.substr(0, 300), rp); continue; }
-		if (!approx_eq(back, v)) O().viol("json:reparse-differs", out.substr(0, 300), rp);
+		if (!back.load(b, out.data() + out.size(), true)) { O().viol(own_output_key(v) + odd_sfx(), out.substr(0, 300), rp); continue; }
+		if (!approx_eq(back, v)) O().viol("json:reparse-differs" + odd_sfx(), out.substr(0, 300), rp);
 		std::string t2 = back.save(fmt ? json::readable : json::compact);
 		json::value b2; b = t2.data();
 		if (!b2.load(b, t2.data() + t2.size(), true) || !(b2 == back)) O().viol("json:second-round-not-exact", t2.substr(0, 300), rp);
@@ -466,6 +474,7 @@ int main(int argc, char **argv)
 	long long cases = a.num("cases", 1000);
 	std::string mode = a.str("mode", "all");
 	if (a.has("dump")) g_dump = fopen(a.str("dump").c_str(), "w");
+	g_odd = a.has("odd");
 	if (mode == "one") { check_any(unhex(a.str("text")), "replay"); }
 	else for (long long i = 0; i < cases; i++) {
 		if (mode == "all" || mode == "rfc") check_rfc_doc(r, i);
